@@ -182,7 +182,8 @@ impl History {
 
     /// Tracks in the order added.
     pub fn tracks(&self) -> Vec<&TrackSpec> {
-        self.ops.iter().filter_map(|o| if let Op::Add(t) = o { Some(t) } else { None }).collect()
+        // the tracks the muxer accepts (see `add_must_be_rejected`)
+        self.ops.iter().filter_map(|o| if let Op::Add(t) = o { if add_must_be_rejected(t) { None } else { Some(t) } } else { None }).collect()
     }
 
     /// The sequential model: per track the accepted samples (a write is accepted iff its track
@@ -192,6 +193,9 @@ impl History {
         let mut rejected = Vec::new();
         for (i, o) in self.ops.iter().enumerate() {
             match o {
+                // an add_track the muxer must reject (documented preconditions) adds no track
+                // and consumes no id: later tracks are numbered as if it had never been made
+                Op::Add(t) if add_must_be_rejected(t) => rejected.push(i),
                 Op::Add(_) => tracks.push(Vec::new()),
                 Op::Write { track_id, s } => {
                     if *track_id >= 1 && (*track_id as usize) <= tracks.len() {
@@ -217,6 +221,18 @@ impl History {
             keep
         });
         h
+    }
+}
+
+/// add_track preconditions: a non-zero timescale; an SPS of 4..=65535 bytes and a PPS of at
+/// most 65535 bytes for AVC.
+pub fn add_must_be_rejected(t: &TrackSpec) -> bool {
+    if t.timescale == 0 {
+        return true;
+    }
+    match &t.media {
+        Media::Avc { sps, pps, .. } => sps.len() < 4 || sps.len() > 65535 || pps.len() > 65535,
+        _ => false,
     }
 }
 
@@ -301,8 +317,9 @@ pub fn run_history<W: Write + Seek>(
         };
         let is_panic = matches!(res, CallRes::Panic(_));
         if !res.is_ok() {
-            // a rejected write (unknown track) is an expected Err and does not spoil the run
-            let expected_reject = matches!((&res, op), (CallRes::Err { io: false, .. }, Op::Write { .. }))
+            // a rejected write (unknown track) or a rejected add_track (violated precondition)
+            // is an expected Err and does not spoil the run
+            let expected_reject = matches!((&res, op), (CallRes::Err { io: false, .. }, Op::Write { .. }) | (CallRes::Err { io: false, .. }, Op::Add(_)))
                 && h.model().1.contains(&i);
             if !expected_reject {
                 all_ok = false;
@@ -788,6 +805,32 @@ pub fn gen_sps(rng: &mut Rng, len: usize) -> Vec<u8> {
             3 => 100,
             _ => rng.next_u32() as u8,
         };
+        annex_b(rng, &mut v, 0x67);
+    }
+    v
+}
+
+/// One parameter set in six comes the way encoders hand it out: with an Annex B start code
+/// (00 00 00 01 or 00 00 01) in front of the NAL header byte, cut to the requested length (so
+/// the 4..7-byte ones are little more than the start code). To the muxer and the file format
+/// parameter sets are opaque bytes; they must come back exactly as configured.
+pub fn annex_b(rng: &mut Rng, v: &mut Vec<u8>, nal_header: u8) {
+    if !rng.chance(1, 6) {
+        return;
+    }
+    let len = v.len();
+    let mut p: Vec<u8> = if rng.bool() { vec![0, 0, 0, 1] } else { vec![0, 0, 1] };
+    p.push(nal_header);
+    p.extend_from_slice(&v[1.min(len)..]);
+    p.truncate(len);
+    *v = p;
+}
+
+pub fn gen_pps(rng: &mut Rng, len: usize) -> Vec<u8> {
+    let mut v = rng.bytes(len);
+    if len >= 4 {
+        v[0] = 0x68;
+        annex_b(rng, &mut v, 0x68);
     }
     v
 }
@@ -834,7 +877,7 @@ pub fn gen_track(rng: &mut Rng, allow_high_aot: bool) -> TrackSpec {
             // lengths over the whole accepted domain 4..=65535, both edges included
             let sl = *rng.pick(&[4usize, 4, 5, 8, 16, 31, 64, 255, 256, 1024, 4096, 65533, 65534, 65535]);
             let pl = *rng.pick(&[4usize, 4, 5, 6, 8, 32, 300, 4096, 65533, 65534, 65535]);
-            Media::Avc { w: rng.biased_u16(), h: rng.biased_u16(), sps: gen_sps(rng, sl), pps: rng.bytes(pl) }
+            Media::Avc { w: rng.biased_u16(), h: rng.biased_u16(), sps: gen_sps(rng, sl), pps: gen_pps(rng, pl) }
         }
         1 => Media::Hevc { w: rng.biased_u16(), h: rng.biased_u16() },
         2 => Media::Vp9 { w: rng.biased_u16(), h: rng.biased_u16() },
@@ -1062,6 +1105,16 @@ pub fn gen_history(rng: &mut Rng, max_tracks: u32, max_samples: u32, max_size: u
             h.ops.push(Op::Add(specs[added as usize].clone()));
             added += 1;
         }
+        if with_rejects && rng.chance(1, 30) {
+            // an add_track the muxer must reject: it must not consume a track id
+            let mut bad = gen_track(rng, false);
+            match rng.below(3) {
+                0 => bad.timescale = 0,
+                1 => bad.media = Media::Avc { w: 16, h: 16, sps: vec![0x67; rng.usize_below(4)], pps: vec![0x68, 1, 2, 3] },
+                _ => bad.media = Media::Avc { w: 16, h: 16, sps: vec![0x67, 66, 0, 30], pps: vec![0x68; 65536] },
+            }
+            h.ops.push(Op::Add(bad));
+        }
         if with_rejects && rng.chance(1, 12) {
             // a call the muxer must reject
             let bad = *rng.pick(&[0u32, added + 1, added + 2, u32::MAX, 1000]);
@@ -1224,7 +1277,7 @@ pub fn degenerate(rng: &mut Rng, h: &mut History, allow_huge: bool) -> Vec<&'sta
                 let sl = *rng.pick(&[0usize, 1, 2, 3, 4, 65535, 65536, 70000]);
                 let pl = *rng.pick(&[0usize, 1, 3, 4, 65535, 65536, 100000]);
                 let sps = gen_sps(rng, sl);
-                let pps = rng.bytes(pl);
+                let pps = gen_pps(rng, pl);
                 let pos = rng.usize_below(h.ops.len().max(1));
                 h.ops.insert(pos.min(h.ops.len()), Op::Add(TrackSpec {
                     kind: 0,
